@@ -564,6 +564,50 @@ func runC14(r *vf.Run) {
 			}
 		}
 	}
+	// 2b. (round 6) well-formed requests of ordinary shapes whose values do or do not occur in the index: comparisons,
+	// value lists (OR / AND of comparisons of ONE column, 2..6 values), the same over two columns, each plain, below NOT
+	// and with a group-by list, for every pattern of present and absent values. Nothing about them is malformed; a
+	// server (also one that preloads, also one with a cache) answers them and goes on.
+	{
+		c0, c1 := cols[0], cols[len(cols)-1]
+		val := func(col string, present bool, k int) string {
+			if present && len(ds.Vals[col]) > 0 {
+				return ds.Vals[col][k%len(ds.Vals[col])]
+			}
+			return fmt.Sprintf("absent value %d", k)
+		}
+		for n := 1; n <= 6; n++ {
+			for pat := 0; pat < 1<<uint(n) && pat < 16; pat++ {
+				// bit k of pat: the k-th value is present
+				for shape := 0; shape < 6; shape++ {
+					var ops []*oracle.Expr
+					for k := 0; k < n; k++ {
+						col := c0
+						if shape >= 4 && k%2 == 1 {
+							col = c1
+						}
+						ops = append(ops, oracle.Eq(col, val(col, pat&(1<<uint(k)) != 0, k)))
+					}
+					var e *oracle.Expr
+					switch shape % 4 {
+					case 0:
+						e = oracle.Or(ops...)
+					case 1:
+						e = oracle.And(ops...)
+					case 2:
+						e = oracle.Not(oracle.Or(ops...))
+					default:
+						e = oracle.And(oracle.Or(ops...), oracle.Not(ops[0]))
+					}
+					var gb []string
+					if (n+pat+shape)%3 == 0 {
+						gb = []string{"lc3"}
+					}
+					addMsg(fmt.Sprintf("value-list/n%d/p%d/s%d", n, pat, shape), "well-formed-value-list", &pb.QueryRequest{Queries: []*pb.Query{{Expr: e.ToProto(), GroupBy: gb}}})
+				}
+			}
+		}
+	}
 	// 3. deep nesting up to the decoder's limit
 	for _, depth := range []int{100, 2000, 4900, 5100, 9000} {
 		e := &pb.Query_Expression{Value: &pb.Query_Expression_Eq{Eq: &pb.Query_Expression_Equal{Column: cols[0], Value: "x"}}}
@@ -603,6 +647,12 @@ func runC14(r *vf.Run) {
 		r.Violation("c14", "open", err.Error())
 		return
 	}
+	idxPre, err := ix.Open(path, ix.OpenPreloaded, nil)
+	if err != nil {
+		r.Violation("c14", "open", err.Error())
+		return
+	}
+	defer idxPre.Close()
 	inprocStuck := false
 	for _, h := range reqs {
 		if inprocStuck {
@@ -610,6 +660,21 @@ func runC14(r *vf.Run) {
 		}
 		if !r.Want("inproc/" + h.id) {
 			continue
+		}
+		if h.req != nil && (h.class == "well-formed-value-list" || h.class == "wide-operator-with-failing-operands") {
+			// the same message on a preloaded index without cache (the other open configuration of the server)
+			for _, pq := range h.req.Queries {
+				r.Eval(1)
+				r.Count("inprocess_messages_on_preloaded_index", 1)
+				if p, msg, stack := vf.Try(func() {
+					if res, err := idxPre.Execute(convert.ToQuery(pq)); err == nil {
+						_ = convert.ToProtobufResult(res, 1)
+					}
+				}); p {
+					r.Violation("inproc-preloaded/"+h.id, "panic", map[string]any{"class": h.class, "message": head(pq.String(), 2000), "panic": msg, "stack": head(stack, 3000), "index": "preloaded, no cache"})
+					break
+				}
+			}
 		}
 		req := h.req
 		if req == nil {
